@@ -37,6 +37,7 @@ type Op struct {
 	Kind        OpKind
 	Delay       time.Duration // wait this long (simulated) after the previous op of this client
 	NoWait      bool          // do not wait for the reply to the previous request
+	Isolated    bool          // fire only when the world is idle and nothing is in flight (exact-oracle probe)
 	Dup         bool          // send the request twice (client retry)
 	AutoConnect bool
 	Msg         *ClientComMessage
@@ -218,6 +219,7 @@ func opDelSub(topic, user string) *Op {
 
 func (o *Op) after(d time.Duration) *Op { o.Delay = d; return o }
 func (o *Op) nowait() *Op               { o.NoWait = true; return o }
+func (o *Op) iso() *Op                  { o.Isolated = true; return o }
 func (o *Op) obo(user string) *Op {
 	if o.Msg.Extra == nil {
 		o.Msg.Extra = &MsgClientExtra{}
